@@ -121,14 +121,14 @@ func lineCounter(r io.Reader) (uint64, error) {
 				if index != -1 {
 					distance = distanceCarryForward + index + 1
 					distanceCarryForward = 0
-					if index > 0 {
-						prevNotCarageReturn = buf[index-1] != '\r'
+					if startIndex+index > 0 {
+						prevNotCarageReturn = buf[startIndex+index-1] != '\r'
 					}
 					if (distance > 1 && prevNotCarageReturn) || (distance > 2 && !prevNotCarageReturn) {
 						count++
 					}
 				} else {
-					distanceCarryForward = len(buf[startIndex:c])
+					distanceCarryForward += len(buf[startIndex:c])
 					prevNotCarageReturn = buf[c-1] != '\r'
 				}
 				startIndex = startIndex + index + 1
@@ -136,7 +136,7 @@ func lineCounter(r io.Reader) (uint64, error) {
 		}
 		switch {
 		case err == io.EOF:
-			if distanceCarryForward > 0 {
+			if distanceCarryForward > 1 || (distanceCarryForward == 1 && prevNotCarageReturn) {
 				count++
 			}
 			return count, nil
